@@ -286,3 +286,17 @@ def np_arange(eng, st, args, kwargs, e):
     k = fresh("k", INT)
     st.assume(_z3.ForAll([k], _z3.Implies(_z3.And(0 <= k, k < n), _z3.Select(arr, k) == lo + k), patterns=[_z3.Select(arr, k)]))
     return VSeq(arr, _z3.simplify(n), "int")
+
+
+def seq_max(eng, st, args, kwargs, e):
+    """np.max(s) / max(s) of a non-empty sequence of numbers (documented): an upper bound of every element that is itself
+    an element.  The non-emptiness is the caller's obligation (numpy raises ValueError on an empty sequence)."""
+    import z3 as _z3
+    s = args[0]
+    if not isinstance(s, VSeq):
+        raise Unsupported("np.max of a non-sequence")
+    srt = s.arr.sort().range()
+    m, j, k = fresh("max", srt), fresh("argmax", INT), fresh("k", INT)
+    st.assume(_z3.ForAll([k], _z3.Implies(_z3.And(0 <= k, k < s.ln), _z3.Select(s.arr, k) <= m), patterns=[_z3.Select(s.arr, k)]))
+    st.assume(_z3.And(0 <= j, j < s.ln, _z3.Select(s.arr, j) == m))
+    return VNum(m)
